@@ -151,10 +151,21 @@ package gcsemu
 // (memstore.Get returns &f.meta, a pointer INTO the stored, immutable memFile; the interface contract does not
 // promise a private copy for Get - callers only read it; see DESIGN.md, false alarms.)
 
+// cloneMeta: deep copy through a JSON round trip (fix of finding G4: a plain struct copy shared the custom metadata
+// map, the ACL slice and the sub-messages with the stored object, so decoding a rejected PATCH body into the result of
+// GetMeta changed the stored object).
+//@ func cloneMeta
+//@   property C09 C10 C20
+//@   trusted JSON round trip of a plain API struct: encoding/json is opaque to the model. ASSUMES: on success the result is a newly allocated object that agrees with the original in the scalar fields listed below and shares no memory with it; the argument is not modified.
+//@   requires meta != nil
+//@   ensures (result0 == nil) <==> (result1 != nil)
+//@   ensures result0 != nil ==> fresh(result0)
+//@   ensures result0 != nil ==> result0.Name == meta.Name && result0.Generation == meta.Generation && result0.Metageneration == meta.Metageneration && result0.Md5Hash == meta.Md5Hash
+
 //@ func (ms *memstore) GetMeta
 //@   property C07 C09 C10 C20
 //@   requires nolocks()
-//@   ensures result1 == nil
+//@   ensures result1 != nil ==> result0 == nil
 //@   ensures result0 != nil ==> fresh(result0)
 //@   ensures result0 != nil ==> result0.Name == filename && result0.Bucket == bucket && result0.Kind == "storage#object" && result0.StorageClass == "STANDARD"
 //@   ensures result0 != nil ==> result0.SelfLink == objectUrlOf(baseUrl, bucket, filename) && result0.MediaLink == objectUrlOf(baseUrl, bucket, filename) + "?alt=media"
@@ -164,7 +175,7 @@ package gcsemu
 //@ func (ms *memstore) ReadMeta
 //@   property C07 C09 C10 C20
 //@   requires nolocks()
-//@   ensures result1 == nil
+//@   ensures result1 != nil ==> result0 == nil
 //@   ensures result0 != nil ==> fresh(result0)
 //@   ensures result0 != nil ==> result0.Name == filename && result0.Bucket == bucket && result0.Kind == "storage#object" && result0.StorageClass == "STANDARD"
 
